@@ -71,6 +71,25 @@ def b_columnfile(ctx):
                         if t in cfm.INTS and not np.issubdtype(np.asarray(h.getcolumn(t)).dtype, np.integer):
                             bad("hdf: integer-typed column not read back as integers", title=t, dtype=str(np.asarray(h.getcolumn(t)).dtype))
                     os.remove(hn)
+                    # the other hdf writer (one uncompressed dataset per column) and the two readers of its files
+                    ho = os.path.join(tmp, "o.h5")
+                    cfm.colfileobj_to_hdf(c, ho, name="peaks")
+                    for rname, rd in (("colfile_from_hdf", lambda: cfm.colfile_from_hdf(ho, name="peaks")),
+                                      ("mmap_h5colf", lambda: cfm.mmap_h5colf(ho, path="peaks"))):
+                        try:
+                            h2 = rd()
+                        except Exception as e:
+                            bad("hdf (colfileobj_to_hdf -> %s): reading raised %s" % (rname, type(e).__name__), titles=ts, nrows=nrows)
+                            continue
+                        ev += 1
+                        if sorted(h2.titles) != sorted(c.titles) or h2.nrows != nrows:
+                            bad("hdf (colfileobj_to_hdf -> %s): titles or number of rows changed" % rname, wrote=sorted(c.titles), read=sorted(h2.titles))
+                            continue
+                        for t in ts:
+                            if not np.array_equal(np.asarray(h2.getcolumn(t), float), c.getcolumn(t)):
+                                bad("hdf (colfileobj_to_hdf -> %s): value not preserved exactly" % rname, title=t)
+                        del h2
+                    os.remove(ho)
                 if len(samples) < 2:
                     samples.append(dict(titles=ts, nrows=nrows))
     return dict(evaluations=ev, distinct_nontrivial=ev, samples=samples, failures=fails,
